@@ -1,15 +1,268 @@
 (* C19 — GBS application helpers are combinatorially exact and structurally sound.
-   Only statements, closed by `exact`, each followed by its axiom audit. *)
+   Only statements, closed by `exact`, each followed by its axiom audit.
+   Models: C19/Similarity.v (similarity.py, sample.py), C19/Clique.v (clique.py), C19/Subgraph.v (subgraph.py).
+   `fixed = false` is the source as it stands, `fixed = true` the documented rule (weight-mode indexing).
+   Theorems named *_refuted exhibit inputs on which the faithful model breaks the property (recorded in
+   known_findings.d/C19.json).  What stays outside a theorem is listed at the end (C19 is `_partial`). *)
 From Coq Require Import List Arith NArith ZArith Bool Permutation.
-From SFV Require Import C19.Similarity C19.SimilarityProofs.
+From SFV Require Import C19.Similarity C19.SimilarityProofs C19.SimilarityBounded
+                        C19.Clique C19.CliqueProofs C19.Subgraph C19.SubgraphProofs C19.Extra.
 Import ListNotations.
 
+(* ============ similarity.py: orbits ============ *)
 (* every list yielded by orbits(n), n >= 1, is a partition of n: non-increasing, positive parts, sum n *)
 Theorem C19_orbits_sound : forall n o, 1 <= n -> In o (orbits n) -> is_partition n o.
 Proof. exact orbits_sound. Qed.
 Print Assumptions C19_orbits_sound.
 
-(* ... and the hypothesis 1 <= n is needed: orbits(0) yields [0] *)
+(* ... and 1 <= n is needed: orbits(0) yields [0] *)
 Theorem C19_orbits_zero_refuted : exists o, In o (orbits 0) /\ ~ is_partition 0 o.
 Proof. exact orbits_zero_refuted. Qed.
 Print Assumptions C19_orbits_zero_refuted.
+
+(* for 1 <= n <= 40 every partition of n is yielded, exactly once (the reference enumerator is proved
+   complete for all n; the bound comes from the vm_compute certificate) *)
+Theorem C19_orbits_complete_bounded : forall n l, 1 <= n <= 40 -> is_partition n l -> In l (orbits n) /\ NoDup (orbits n).
+Proof. exact orbits_complete_bounded. Qed.
+Print Assumptions C19_orbits_complete_bounded.
+
+(* the unbounded statement: NOT proved (needs the termination/lexicographic-successor argument of Kelleher's loop) *)
+Definition C19_orbits_complete_full_statement : Prop := orbits_complete_statement.
+
+(* ============ similarity.py: conversions ============ *)
+Theorem C19_sample_to_orbit_is_partition : forall s, is_partition (list_sum s) (sample_to_orbit s).
+Proof. exact sample_to_orbit_partition. Qed.
+Print Assumptions C19_sample_to_orbit_is_partition.
+
+Theorem C19_sample_to_orbit_perm_invariant : forall s s', Permutation s s' -> sample_to_orbit s = sample_to_orbit s'.
+Proof. exact sample_to_orbit_perm. Qed.
+Print Assumptions C19_sample_to_orbit_perm_invariant.
+
+(* orbit -> sample (any shuffle) -> orbit *)
+Theorem C19_orbit_to_sample_roundtrip : forall o m perm s,
+  desc o -> Forall (fun v => 1 <= v) o -> Permutation perm (seq 0 m) ->
+  orbit_to_sample o m perm = Some s -> sample_to_orbit s = o /\ length s = m.
+Proof. exact orbit_to_sample_roundtrip. Qed.
+Print Assumptions C19_orbit_to_sample_roundtrip.
+
+Theorem C19_sample_to_event_spec : forall s c k,
+  sample_to_event s c = Some k <-> Forall (fun v => v <= c) s /\ k = list_sum s.
+Proof. exact sample_to_event_spec. Qed.
+Print Assumptions C19_sample_to_event_spec.
+
+(* ============ similarity.py: cardinalities (exact-integer model) ============ *)
+(* multinomial coefficient with exact division: cardinality * prod(multiplicity!) = modes!, for all sizes *)
+Theorem C19_orbit_cardinality_multinomial : forall o m, length o <= m ->
+  (orbit_cardinality o m * prod_fact (counts (pad o m)) = factN m)%N.
+Proof. exact orbit_cardinality_multinomial. Qed.
+Print Assumptions C19_orbit_cardinality_multinomial.
+
+(* = number of samples in the orbit, by exhaustive enumeration, 1..6 photons, <= 5 modes *)
+Theorem C19_orbit_cardinality_counts_bounded : forall k m o,
+  1 <= k <= 6 -> m <= 5 -> In o (orbits k) -> length o <= m -> orbit_cardinality o m = samples_in_orbit o m k.
+Proof. exact orbit_cardinality_counts_bounded. Qed.
+Print Assumptions C19_orbit_cardinality_counts_bounded.
+
+Theorem C19_event_cardinality_counts_bounded : forall k c m,
+  1 <= k <= m -> m <= 5 -> 1 <= c <= 5 -> event_cardinality k c m = samples_in_event k c m.
+Proof. exact event_cardinality_counts_bounded. Qed.
+Print Assumptions C19_event_cardinality_counts_bounded.
+
+(* k <= m is needed: with fewer modes than photons orbits longer than the mode count are counted *)
+Theorem C19_event_cardinality_short_modes_refuted :
+  exists k c m, 1 <= k /\ 1 <= m /\ event_cardinality k c m <> samples_in_event k c m.
+Proof. exact event_cardinality_short_modes_refuted. Qed.
+Print Assumptions C19_event_cardinality_short_modes_refuted.
+
+Definition C19_cardinality_full_statement : Prop :=
+  forall k m o, 1 <= k -> In o (orbits k) -> length o <= m -> orbit_cardinality o m = samples_in_orbit o m k.
+
+(* ============ sample.py ============ *)
+Theorem C19_postselect_spec : forall samples lo hi s,
+  In s (postselect samples lo hi) <-> In s samples /\ lo <= list_sum s <= hi.
+Proof. exact postselect_spec. Qed.
+Print Assumptions C19_postselect_spec.
+
+Theorem C19_modes_from_counts_count : forall s i, count_occ_nat i (modes_from_counts s) = nth i s 0.
+Proof. exact modes_from_counts_count. Qed.
+Print Assumptions C19_modes_from_counts_count.
+
+Theorem C19_to_subgraph_spec : forall gnodes s v,
+  In v (to_subgraph gnodes s) <-> exists i, 1 <= nth i s 0 /\ v = nth i gnodes 0.
+Proof. exact to_subgraph_spec. Qed.
+Print Assumptions C19_to_subgraph_spec.
+
+(* ============ clique.py ============ *)
+(* on a simple graph the edge-count test decides cliques *)
+Theorem C19_is_clique_spec : forall adj,
+  (forall u v, adj u v = adj v u) -> (forall u, adj u u = false) ->
+  forall l, NoDup l -> (is_clique adj l = true <-> clique_set adj l).
+Proof. exact is_clique_spec. Qed.
+Print Assumptions C19_is_clique_spec.
+
+(* ... and "no self-loops" is needed *)
+Theorem C19_is_clique_selfloop_refuted : exists adj l,
+  (forall u v, adj u v = adj v u) /\ NoDup l /\ is_clique adj l = true /\ ~ clique_set adj l.
+Proof. exact is_clique_selfloop_refuted. Qed.
+Print Assumptions C19_is_clique_selfloop_refuted.
+
+(* with self-loops left out of the count (proposed repair) the test is exact on every graph *)
+Theorem C19_is_clique_noloop_spec : forall adj l,
+  (forall u v, adj u v = adj v u) -> NoDup l -> (is_clique (noloop adj) l = true <-> clique_set adj l).
+Proof. exact is_clique_noloop_spec. Qed.
+Print Assumptions C19_is_clique_noloop_spec.
+
+Theorem C19_c_0_spec : forall adj nodes clique i,
+  In i (c_0 adj nodes clique) <-> In i nodes /\ ~ In i clique /\ (forall c, In c clique -> adj i c = true).
+Proof. exact c_0_spec. Qed.
+Print Assumptions C19_c_0_spec.
+
+Theorem C19_c_1_spec : forall adj nodes clique c i, NoDup clique ->
+  (In (c, i) (c_1 adj nodes clique) <->
+   In i nodes /\ ~ In i clique /\ In c clique /\ adj i c = false /\
+   (forall c', In c' clique -> c' <> c -> adj i c' = true)).
+Proof. exact c_1_spec. Qed.
+Print Assumptions C19_c_1_spec.
+
+(* the node chosen among candidates: in range; of greatest degree / greatest weight in those modes;
+   for every oracle draw *)
+Theorem C19_choose_rule : forall nodes s key cands d i,
+  cands <> [] -> choose_index nodes s key cands d = Some i ->
+  i < length cands /\
+  (s = Degree -> forall c, In c cands -> key c <= key (nth i cands 0)) /\
+  (forall w, s = Weight w -> forall c, In c cands -> (weight_of nodes w c <= weight_of nodes w (nth i cands 0%nat))%Z).
+Proof. exact choose_index_spec. Qed.
+Print Assumptions C19_choose_rule.
+
+(* grow: for every selection mode and all draws, the result is a maximal clique of the graph containing the input *)
+Theorem C19_grow : forall adj,
+  (forall u v, adj u v = adj v u) -> (forall u, adj u u = false) ->
+  forall nodes s clique draws r, grow adj nodes s clique draws = Ok r ->
+  clique_set adj r /\ (forall x, In x clique -> In x r) /\ (forall x, In x r -> In x nodes) /\ NoDup r /\
+  c_0 adj nodes r = [].
+Proof. exact grow_sound. Qed.
+Print Assumptions C19_grow.
+
+Theorem C19_swap : forall adj,
+  (forall u v, adj u v = adj v u) -> (forall u, adj u u = false) ->
+  forall nodes s clique draws r, swap adj nodes s clique draws = Ok r ->
+  clique_set adj r /\ length r = length (dedup clique) /\ (forall x, In x r -> In x nodes) /\ NoDup r.
+Proof. exact swap_sound. Qed.
+Print Assumptions C19_swap.
+
+(* shrink (source as it stands AND repaired): the result is a clique inside the input *)
+Theorem C19_shrink : forall adj,
+  (forall u v, adj u v = adj v u) -> (forall u, adj u u = false) ->
+  forall nodes fixed s tbl draws r, NoDup tbl -> shrink adj nodes fixed s tbl draws = Ok r ->
+  clique_set adj r /\ (forall x, In x r -> In x tbl) /\ NoDup r.
+Proof. exact shrink_sound. Qed.
+Print Assumptions C19_shrink.
+
+(* removal rule, documented variant: minimum degree, and minimum weight among those *)
+Theorem C19_shrink_rule_fixed : forall adj nodes s tbl d i,
+  tbl <> [] -> shrink_index adj nodes true s tbl d = Some i ->
+  i < length tbl /\
+  (forall u, In u tbl -> deg_in adj (nth i tbl 0) tbl <= deg_in adj u tbl) /\
+  (forall w, s = Weight w -> forall u, In u tbl -> deg_in adj u tbl = deg_in adj (nth i tbl 0) tbl ->
+     (weight_of nodes w (nth i tbl 0%nat) <= weight_of nodes w u)%Z).
+Proof. exact shrink_rule_fixed. Qed.
+Print Assumptions C19_shrink_rule_fixed.
+
+(* removal rule, source as it stands: holds outside weight mode ... *)
+Theorem C19_shrink_rule_as_is : forall adj nodes s tbl d i,
+  (forall w, s <> Weight w) -> tbl <> [] -> shrink_index adj nodes false s tbl d = Some i ->
+  i < length tbl /\ (forall u, In u tbl -> deg_in adj (nth i tbl 0) tbl <= deg_in adj u tbl).
+Proof. exact shrink_rule_as_is. Qed.
+Print Assumptions C19_shrink_rule_as_is.
+
+(* ... and fails in weight mode: a node that does not have minimum degree is removed *)
+Theorem C19_shrink_weight_rule_refuted : exists adj nodes w tbl d i,
+  (forall u v, adj u v = adj v u) /\ (forall u, adj u u = false) /\ NoDup tbl /\
+  shrink_index adj nodes false (Weight w) tbl d = Some i /\
+  exists u, In u tbl /\ deg_in adj u tbl < deg_in adj (nth i tbl 0) tbl.
+Proof. exact shrink_rule_refuted. Qed.
+Print Assumptions C19_shrink_weight_rule_refuted.
+
+(* ============ subgraph.py ============ *)
+(* resize (both variants, all modes, all draws): every recorded entry is a duplicate-free node subset of exactly its size, within range *)
+Theorem C19_resize_sizes : forall adj nodes fixed s tbl lo hi draws r,
+  NoDup tbl -> NoDup nodes -> resize adj nodes fixed s tbl lo hi draws = ROk r ->
+  forall k sub, In (k, sub) r -> length sub = k /\ lo <= k <= hi /\ NoDup sub /\ (forall x, In x sub -> In x nodes).
+Proof. exact resize_sizes. Qed.
+Print Assumptions C19_resize_sizes.
+
+(* every requested size is present *)
+Theorem C19_resize_covers : forall adj nodes fixed s tbl lo hi draws r,
+  resize adj nodes fixed s tbl lo hi draws = ROk r -> forall k, lo <= k <= hi -> exists sub, In (k, sub) r.
+Proof. exact resize_covers. Qed.
+Print Assumptions C19_resize_covers.
+
+(* grown entries contain the starting subgraph, shrunk entries lie inside it *)
+Theorem C19_resize_nested : forall adj nodes fixed s tbl lo hi draws r,
+  NoDup tbl -> NoDup nodes -> resize adj nodes fixed s tbl lo hi draws = ROk r ->
+  forall k sub, In (k, sub) r ->
+  (length tbl <= k -> forall x, In x tbl -> In x sub) /\ (k <= length tbl -> forall x, In x sub -> In x tbl).
+Proof. exact resize_nested. Qed.
+Print Assumptions C19_resize_nested.
+
+(* growth rule, documented variant: highest degree w.r.t. the subgraph, highest weight among those *)
+Theorem C19_resize_grow_rule_fixed : forall adj nodes s sub compl d i,
+  compl <> [] -> grow_index adj nodes true s sub compl d = Some i ->
+  i < length compl /\
+  (forall c, In c compl -> deg_to adj c sub <= deg_to adj (nth i compl 0) sub) /\
+  (forall w, s = Weight w -> forall c, In c compl -> deg_to adj c sub = deg_to adj (nth i compl 0) sub ->
+     (weight_of nodes w c <= weight_of nodes w (nth i compl 0%nat))%Z).
+Proof. exact grow_index_rule. Qed.
+Print Assumptions C19_resize_grow_rule_fixed.
+
+Theorem C19_resize_grow_rule_as_is : forall adj nodes s sub compl d i,
+  (forall w, s <> Weight w) -> compl <> [] -> grow_index adj nodes false s sub compl d = Some i ->
+  i < length compl /\ (forall c, In c compl -> deg_to adj c sub <= deg_to adj (nth i compl 0) sub).
+Proof. exact grow_rule_as_is. Qed.
+Print Assumptions C19_resize_grow_rule_as_is.
+
+Theorem C19_resize_grow_weight_rule_refuted : exists adj nodes w sub compl d i,
+  (forall u v, adj u v = adj v u) /\ (forall u, adj u u = false) /\
+  grow_index adj nodes false (Weight w) sub compl d = Some i /\
+  exists c, In c compl /\ deg_to adj (nth i compl 0) sub < deg_to adj c sub.
+Proof. exact grow_index_refuted. Qed.
+Print Assumptions C19_resize_grow_weight_rule_refuted.
+
+(* _update_subgraphs_list: bounded, only offered entries, a strictly denser candidate always gets in, sorted *)
+Theorem C19_update_list_length : forall (l : list entry) t m d, 1 <= m \/ l <> [] ->
+  length (fst (update_list l t m d)) <= Nat.max (length l) m /\
+  (length l <= m -> length (fst (update_list l t m d)) <= m).
+Proof. exact update_list_length. Qed.
+Print Assumptions C19_update_list_length.
+
+Theorem C19_update_list_members : forall l t m d e,
+  In e (fst (update_list l t m d)) -> In e l \/ e = (fst t, sort_asc (dedup (snd t))).
+Proof. exact update_list_members. Qed.
+Print Assumptions C19_update_list_members.
+
+Theorem C19_update_list_keeps_denser : forall l t m d,
+  1 <= m -> length l = m -> (forall e, In e l -> 0 < snd (fst e)) -> 0 < snd (fst t) ->
+  dens_ltb (fst (last l ((0, 1), []))) (fst t) = true ->
+  (forall e, In e l -> list_eqb_nat (sort_asc (dedup (snd t))) (snd e) = false) ->
+  In (fst t, sort_asc (dedup (snd t))) (fst (update_list l t m d)).
+Proof. exact update_list_keeps_denser. Qed.
+Print Assumptions C19_update_list_keeps_denser.
+
+Theorem C19_sort_entries_sorted : forall l, (forall e, In e l -> 0 < snd (fst e)) -> entries_sorted (sort_entries l).
+Proof. exact sort_entries_sorted. Qed.
+Print Assumptions C19_sort_entries_sorted.
+
+(* ---- satisfiability of the hypotheses used above ---- *)
+Example C19_ex_partition : is_partition 5 [2; 2; 1].
+Proof. repeat split; repeat constructor. Qed.
+Example C19_ex_simple_graph : (forall u v, adj_of [(0, 1); (1, 2); (0, 2)] u v = adj_of [(0, 1); (1, 2); (0, 2)] v u)
+  /\ grow (adj_of [(0, 1); (1, 2); (0, 2)]) [0; 1; 2] Degree [0] [0; 0; 0] = Ok [0; 1; 2].
+Proof. split; [apply adj_of_sym|reflexivity]. Qed.
+
+(* Not a theorem (C19 is _partial):
+   - unbounded completeness of orbits (C19_orbits_complete_full_statement) and the unbounded identification of
+     orbit_cardinality with the number of samples (C19_cardinality_full_statement; the multinomial identity is
+     proved for all sizes, the count only for the bounded sweep);
+   - event_to_sample, search/_update_dict as whole-history statements, nx.density (modelled as 2e/(n(n-1)) and
+     compared, not proved);
+   - the implementation's floating-point orbit_cardinality is not modelled: the exact model is what is proved. *)
